@@ -98,6 +98,14 @@ def arith(op, a, b):
 
 
 def unary(op, a):
+    if len(op) > 2 and op[0] == 'u':      # a run of signs: `--x`, `- -x`, `+-x`
+        n = op.count('-')
+        if n and n % 2 == 0:              # a number again, not the identity
+            if isinstance(a, XlError):
+                return {xl.canon(a)}
+            x = to_number(a)
+            return {VALUE} if x == VALUE else {_fin(0.0 + x)}
+        op = 'u-' if n else 'u+'
     if op == 'u+':
         if a is sh.EMPTY:         # a formula result shows a blank as 0
             return {xl.BLANK, xl.c_num(0)}
@@ -193,7 +201,7 @@ _ODD_SPACE = re.compile(r'[\t\n\r\x0b\x0c\xa0]')
 
 
 def accept(op, *args):
-    if op in ARITH or op in ('u-', '%'):
+    if op in ARITH or op in ('u-', '%') or (op[0] == 'u' and '-' in op):
         # numeric text padded with white space other than blanks (line feed,
         # tab, NBSP): whether Excel coerces it is not part of the statement
         for a in args:
